@@ -252,6 +252,19 @@ def handle : Drv.Handler
                             maxDepth := r.maxDepth, visits := r.visits, early := false, stopped := false }
     -- unique_state_count of the simulation checker is its state_count
     pure ((showSt s).replace "(uniq 0)" s!"(uniq {r.stateCount})")
+  -- simulation with symmetry: the per-trace seen-set holds the keys of the REPRESENTATIVES
+  | "sim-sym", [g, ps, cfg, rep, ans] => do
+    let g ← Graph.ofSExp? g
+    let ps ← ps.listOf? GProp.ofSExp?
+    let (cfg, fin) ← parseCfg cfg
+    let rep ← rep.nats?
+    let ans ← ans.nats?
+    let c : Case := { g, props := ps, cfg, finish := fin }
+    let P : Params Nat Nat Nat := { c.params with key := fun s => rep.getD s s }
+    let r := Sim.runTraces P (g.n + 3) (ans.length + 20) ans {}
+    let s : St Nat Nat := { gen := [], frontier := [], active := [], done := [], disc := r.disc, stateCount := r.stateCount,
+                            maxDepth := r.maxDepth, visits := r.visits, early := false, stopped := false }
+    pure ((showSt s).replace "(uniq 0)" s!"(uniq {r.stateCount})")
   -- DFS with symmetry reduction: `rep` maps every state to its representative; key = rep
   | "chk-sym", [g, ps, cfg, rep] => do
     let g ← Graph.ofSExp? g
